@@ -27,8 +27,32 @@ def extra(ctx, case, out, code, desc):
         raise common.InfraError('C04: a member task is numbered after a task outside the WBS: hypothesis exts_last not met')
 
 
+def robustness_stream(ctx):
+    """WBSs with milestone SUMMARIES (outside the domain of the theorems): the conservation clause is evaluated directly
+    on what the implementation returned - the working leaves below a milestone summary still get their work reserved"""
+    n = 50 if ctx.tier == 'quick' else 1000
+    cases = [sc.gen_milestone_summary_case(ctx.rng) for _ in range(n)]
+    outs = []
+    for i in range(0, len(cases), 25):
+        outs += ctx.impl_run('sched_impl', cases[i:i + 25])
+    stat = {'cases': len(cases), 'returned': 0, 'raised': 0, 'tasks_judged': 0}
+    for c, o in zip(cases, outs):
+        if not o.get('outcome_only') or o.get('outcome') != 0:
+            stat['raised'] += 1
+            continue
+        stat['returned'] += 1
+        stat['tasks_judged'] += len(o.get('work', []))
+        probs = sc.robust_work_problems(c, o)
+        if probs:
+            ctx.failure('C04/%s/milestone-summary/reserved-work' % c['dir'],
+                        'WBS with a milestone summary: ' + '; '.join(probs[:4]), {'case': c, 'observed': o})
+    return stat
+
+
 def run(ctx):
+    stat = robustness_stream(ctx)
     sc.run_property(ctx, ID, FAIL, MISMATCH, extra=extra)
+    ctx.coverage.setdefault('distribution', {})['robustness_stream_milestone_summaries'] = stat
     ctx.assumptions += [
         'C04: capacities of a day lie in [0, 86400000000] scaled units (checked on every case); with a larger capacity a '
         'reservation can move a date by less than a microsecond (Example C04_cap_small_needed)',
@@ -37,4 +61,13 @@ def run(ctx):
 
 
 def replay(ctx, rep):
+    case = rep['case']['case']
+    if case.get('outcome_only'):
+        o = ctx.impl_run('sched_impl', [case])[0]
+        probs = sc.robust_work_problems(case, o) if o.get('outcome') == 0 else []
+        print('replay: implementation outcome %s, problems %s' % (o.get('outcome'), probs))
+        if probs:
+            ctx.failure('C04/%s/replay' % case['dir'], 'reserved work differs from remaining work on the replayed case', {'case': case, 'observed': o})
+        ctx.coverage.update(evaluations=1, distinct_nontrivial=1, rule='replay of one case of the robustness stream', samples=[case])
+        return
     sc.replay_generic(ctx, rep, FAIL, MISMATCH, ID)
